@@ -360,6 +360,8 @@ func blockContainerLayout(context *layoutContext, box_ Box, bottomSpace pr.Float
 		resumeAt                  tree.ResumeStack
 		brokenOutOfFlow           = make(map[Box]brokenBox)
 		lastInFlowChild           Box
+		// whether every in-flow child laid out so far is collapsed through
+		allInFlowCollapsedThrough = true
 	)
 
 	if ml := box.Style.GetMaxLines(); ml.Tag != pr.None {
@@ -402,17 +404,22 @@ func blockContainerLayout(context *layoutContext, box_ Box, bottomSpace pr.Float
 				bottomSpace, positionY, skipStack, firstLetterStyle, maxLines)
 			drawBottomDecoration = drawBottomDecoration || resumeAt == nil
 			adjoiningMargins = new([]pr.Float)
+			allInFlowCollapsedThrough = false
 			allFootnotes = append(allFootnotes, newFootnotes...)
 		} else {
 			var (
 				adjoiningMarginsV []pr.Float
 				newMaxLines       int
+				childThrough      bool
 			)
-			abort, stop, resumeAt, positionY, adjoiningMarginsV, nextPage, newChildren, newMaxLines = inFlowLayout(context, box_, index, child_,
+			abort, stop, resumeAt, positionY, adjoiningMarginsV, nextPage, newChildren, newMaxLines, childThrough = inFlowLayout(context, box_, index, child_,
 				newChildren, pageIsEmpty, absoluteBoxes, fixedBoxes, adjoiningMargins,
 				bottomSpace, positionY, skipStack, firstLetterStyle, collapsingWithChildren, discard, maxLines)
 			skipStack = nil
 			adjoiningMargins = &adjoiningMarginsV
+			if !childThrough {
+				allInFlowCollapsedThrough = false
+			}
 
 			if newMaxLines != -1 && maxLines != -1 {
 				maxLines = newMaxLines
@@ -502,7 +509,13 @@ func blockContainerLayout(context *layoutContext, box_ Box, bottomSpace pr.Float
 		}
 	}
 	collapsingThrough := false
-	if lastInFlowChild == nil {
+	// An auto-height box without padding and border (that does not establish a formatting
+	// context) whose in-flow children are all collapsed through is as empty as a box
+	// without in-flow children: its margins are adjoining through them.
+	onlyCollapsedThroughChildren := lastInFlowChild != nil && allInFlowCollapsedThrough &&
+		collapsingWithChildren && box.Height == pr.AutoF && box.MinHeight == pr.Float(0) &&
+		box.BorderBottomWidth == pr.Float(0) && box.PaddingBottom == pr.Float(0)
+	if lastInFlowChild == nil || onlyCollapsedThroughChildren {
 		collapsedMargin := collapseMargin(*adjoiningMargins)
 		// top && bottom margin of this box
 		if (box.Height == pr.AutoF || box.Height == pr.Float(0)) &&
@@ -831,7 +844,7 @@ func inFlowLayout(context *layoutContext, box_ bo.Box, index int, child_ Box, ne
 	pageIsEmpty bool, absoluteBoxes, fixedBoxes *[]*AbsolutePlaceholder, adjoiningMargins *[]pr.Float, bottomSpace, positionY pr.Float,
 	skipStack tree.ResumeStack, firstLetterStyle pr.ElementStyle, collapsingWithChildren, discard bool,
 	maxLines int) (
-	abort, stop bool, resumeAt tree.ResumeStack, _ pr.Float, _ []pr.Float, nextPage tree.PageBreak, _ []Box, _ int,
+	abort, stop bool, resumeAt tree.ResumeStack, _ pr.Float, _ []pr.Float, nextPage tree.PageBreak, _ []Box, _ int, childCollapsedThrough bool,
 ) {
 	box := box_.Box()
 	lastInFlowChild := findLastInFlowChild(newChildren)
@@ -846,7 +859,7 @@ func inFlowLayout(context *layoutContext, box_ bo.Box, index int, child_ Box, ne
 			nextPage = tree.PageBreak{Break: pageBreak, Page: pageName}
 			resumeAt = tree.ResumeStack{index: nil}
 			stop = true
-			return abort, stop, resumeAt, positionY, *adjoiningMargins, nextPage, newChildren, maxLines
+			return abort, stop, resumeAt, positionY, *adjoiningMargins, nextPage, newChildren, maxLines, childCollapsedThrough
 		}
 	}
 
@@ -907,6 +920,7 @@ func inFlowLayout(context *layoutContext, box_ bo.Box, index int, child_ Box, ne
 		newContainingBlock, pageIsEmptyWithNoChildren, absoluteBoxes, fixedBoxes, adjoiningMargins, discard, maxLines)
 	resumeAt, nextPage = tmp.resumeAt, tmp.nextPage
 	nextAdjoiningMargins, collapsingThrough := tmp.adjoiningMargins, tmp.collapsingThrough
+	childCollapsedThrough = collapsingThrough
 
 	if traceMode {
 		traceLogger.Dump(fmt.Sprintf("in inFlowLayout: blockLevelLayout -> %s", resumeAt))
@@ -973,7 +987,7 @@ func inFlowLayout(context *layoutContext, box_ bo.Box, index int, child_ Box, ne
 			if r1 != nil || r2 != nil {
 				newChildren, resumeAt = r1, r2
 				stop = true
-				return abort, stop, resumeAt, positionY, *adjoiningMargins, nextPage, newChildren, maxLines
+				return abort, stop, resumeAt, positionY, *adjoiningMargins, nextPage, newChildren, maxLines, childCollapsedThrough
 			} else {
 				// We did not find any page break opportunity
 				if !pageIsEmpty {
@@ -981,7 +995,7 @@ func inFlowLayout(context *layoutContext, box_ bo.Box, index int, child_ Box, ne
 					// cancel the block and try to find a break
 					// in the parent.
 					abort = true
-					return abort, stop, resumeAt, positionY, *adjoiningMargins, nextPage, newChildren, maxLines
+					return abort, stop, resumeAt, positionY, *adjoiningMargins, nextPage, newChildren, maxLines, childCollapsedThrough
 				}
 				// else : ignore this "avoid" and break anyway.
 			}
@@ -1008,7 +1022,7 @@ func inFlowLayout(context *layoutContext, box_ bo.Box, index int, child_ Box, ne
 			// completly
 			abort = true
 		}
-		return abort, stop, resumeAt, positionY, *adjoiningMargins, nextPage, newChildren, maxLines
+		return abort, stop, resumeAt, positionY, *adjoiningMargins, nextPage, newChildren, maxLines, childCollapsedThrough
 	}
 
 	// index in its non-laid-out parent, not in future new parent
@@ -1020,7 +1034,7 @@ func inFlowLayout(context *layoutContext, box_ bo.Box, index int, child_ Box, ne
 		stop = true
 	}
 
-	return abort, stop, resumeAt, positionY, *adjoiningMargins, nextPage, newChildren, maxLines
+	return abort, stop, resumeAt, positionY, *adjoiningMargins, nextPage, newChildren, maxLines, childCollapsedThrough
 }
 
 // Return the amount of collapsed margin for a list of adjoining margins.
